@@ -40,8 +40,9 @@ pub enum Step {
     Reconnect,
     /// a user request (0 direct operate, 1 warm restart, 2 write dead-bands, 3 freeze-and-clear, 4 read of a range) is never
     /// answered; instead the outstation keeps the line busy - kind 0 null unsolicited responses, 1 responses with another
-    /// sequence number, 2 link status requests, 3 frames from an unknown outstation - one every `every` ms (less than the
-    /// response timeout) for longer than the response timeout: the request must still end (with a time-out)
+    /// sequence number, 2 link status requests, 3 frames from an unknown outstation, 4 (READ only) the first fragment of a
+    /// response series, accepted and confirmed once and then repeated instead of the next one - one every `every` ms (less
+    /// than the response timeout) for longer than four response timeouts: the request must still end (with a time-out)
     Starve(u8, u8, u16),
 }
 
@@ -56,6 +57,10 @@ pub struct Case {
     pub keep_alive_ms: Option<u16>,
     pub chunk: u16,
     pub steps: Vec<Step>,
+    /// the application has no clock (`get_current_time` returns None): automatic time synchronisation, asked for by the
+    /// outstation's NEED_TIME indication, cannot even start
+    #[serde(default)]
+    pub no_clock: bool,
 }
 
 fn send_chunked(rig: &mut MasterRig, bytes: &[u8], chunk: u16) {
@@ -105,7 +110,19 @@ pub async fn run_script(case: &Case) -> CaseOut {
     cfg.keep_alive_timeout = case
         .keep_alive_ms
         .map(|x| Duration::from_millis(20 + x as u64));
-    rig.add_association(OUT, cfg, Some(1_700_000_000_000)).await;
+    if case.no_clock {
+        out.label("application_without_a_clock");
+    }
+    rig.add_association(
+        OUT,
+        cfg,
+        if case.no_clock {
+            None
+        } else {
+            Some(1_700_000_000_000)
+        },
+    )
+    .await;
     if let Some(p) = case.poll_ms {
         let mut h = rig.assocs.get_mut(&OUT).unwrap().handle.clone();
         let _ = h
@@ -449,12 +466,33 @@ pub async fn run_script(case: &Case) -> CaseOut {
                     let every = 1 + (*every as u64 % (TIMEOUT - 1));
                     let mut waited = 0u64;
                     let mut n = 0u8;
+                    // kind 4: the READ is answered with the first fragment of a series (FIR, no FIN, CON), which the master
+                    // accepts and confirms - and then that same fragment is repeated for ever instead of the next one
+                    let first_of_series = Fragment {
+                        fir: true,
+                        fin: false,
+                        con: true,
+                        uns: false,
+                        seq: req.seq,
+                        func: func::RESPONSE,
+                        iin: Some((0, 0)),
+                        objects: ra::h_range8(30, 1, 77, 77, &[0x01, 5, 0, 0, 0]),
+                    };
+                    let mid_series = kind % 5 == 4 && want_func == func::READ;
+                    if mid_series {
+                        rig.respond(OUT, &first_of_series);
+                        rig.settle().await;
+                        let _ = rig.take_requests();
+                        out.label("starved_in_the_middle_of_a_series");
+                    }
+                    let kind = if mid_series { 4u8 } else { kind % 5 % 4 };
                     // a deadline that interference can push back a bounded number of times is still a deadline; one that
                     // every fragment restarts is a wedge: four times the response timeout separates the two
                     while waited <= 4 * TIMEOUT + every
                         && (waited <= TIMEOUT + every || p.outcomes().is_empty())
                     {
-                        match kind % 4 {
+                        match kind {
+                            4 => rig.respond(OUT, &first_of_series),
                             0 => {
                                 let f = Fragment {
                                     fir: true,
@@ -511,10 +549,10 @@ pub async fn run_script(case: &Case) -> CaseOut {
                                 "request-outlives-its-timeout",
                                 format!(
                                     "a user request (function {want_func}) transmitted {waited} ms ago and never answered is still pending although the response timeout is {TIMEOUT} ms (four times that have passed); the outstation sent {} every {every} ms in the meantime",
-                                    ["null unsolicited responses", "responses with other sequence numbers", "link status requests", "frames from an unknown outstation"][*kind as usize % 4]
+                                    ["null unsolicited responses", "responses with other sequence numbers", "link status requests", "frames from an unknown outstation", "the first fragment of the response series again"][kind as usize % 5]
                                 ),
                             )
-                            .with_sig(format!("C01 master request-outlives-its-timeout kind={}", kind % 4)),
+                            .with_sig(format!("C01 master request-outlives-its-timeout kind={}", kind)),
                         );
                         return out;
                     }
@@ -681,7 +719,7 @@ impl Prop for MasterScript {
     const NAME: &'static str = "master_script";
     const TRACK_STALL: bool = true;
     fn rule() -> &'static str {
-        "hostile session scripts against a real master (real link layer, transport function, task scheduler; start-up sequence with time sync or a quiet association, optional poll and keep-alive): grammar+mutated fragments with response function codes sent while a task is outstanding (sequence number matched or not) and while idle, well-sequenced responses with hostile object parts to every kind of user request (reads, commands, time sync, restart, dead-bands, freeze, attributes, file read), raw transport segments, raw wire bytes, frames from an unknown outstation, time advances, reconnects, all decode levels, both link error modes, chunked delivery; oracle: no panic, no busy loop, and afterwards the master answers REQUEST_LINK_STATUS and serves a user READ (transmitted, answered, completes Ok); non-trivial = an injected item that reached the transport/application layer"
+        "hostile session scripts against a real master (real link layer, transport function, task scheduler; start-up sequence with time sync or a quiet association, optional poll and keep-alive): grammar+mutated fragments with response function codes sent while a task is outstanding (sequence number matched or not) and while idle, well-sequenced responses with hostile object parts to every kind of user request (reads, commands, time sync, restart, dead-bands, freeze, attributes, file read), raw transport segments, raw wire bytes, frames from an unknown outstation, time advances, reconnects, all decode levels, both link error modes, chunked delivery; starved requests (the outstation never answers but keeps the line busy with null unsolicited responses, other sequence numbers, link status requests, foreign frames, or - for a READ - with the first fragment of the series again and again: the request must end within four response timeouts), an application with or without a clock; oracle: no panic, no busy loop, and afterwards the master answers REQUEST_LINK_STATUS and serves a user READ (transmitted, answered, completes Ok); non-trivial = an injected item that reached the transport/application layer"
     }
     fn strategy(tier: Tier) -> BoxedStrategy<Case> {
         let resp_frag = || {
@@ -707,21 +745,21 @@ impl Prop for MasterScript {
             6 => (0u8..12).prop_map(Step::User),
             2 => prop_oneof![Just(1u16), Just(199), Just(200), Just(201), 0u16..600].prop_map(Step::Advance),
             1 => Just(Step::Reconnect),
-            2 => (0u8..5, 0u8..4, prop_oneof![Just(1u16), Just(50), Just(150), Just(198), 0u16..199]).prop_map(|(u, k, e)| Step::Starve(u, k, e)),
+            2 => (0u8..5, 0u8..5, prop_oneof![Just(1u16), Just(50), Just(150), Just(198), 0u16..199]).prop_map(|(u, k, e)| Step::Starve(u, k, e)),
         ];
         let n = if tier == Tier::Quick { 14 } else { 40 };
         (
             any::<bool>(),
             any::<[u8; 4]>(),
             prop_oneof![2 => Just(249u16), 1 => 249u16..=2048, 1 => Just(2048u16)],
-            any::<bool>(),
+            (any::<bool>(), prop_oneof![3 => Just(false), 1 => Just(true)]),
             proptest::option::of(0u16..500),
             proptest::option::of(0u16..500),
             prop_oneof![2 => Just(0u16), 1 => 1u16..300],
             proptest::collection::vec(step, 1..n),
         )
             .prop_map(
-                |(discard, decode, tx, startup, poll_ms, keep_alive_ms, chunk, steps)| Case {
+                |(discard, decode, tx, (startup, no_clock), poll_ms, keep_alive_ms, chunk, steps)| Case {
                     discard,
                     decode,
                     tx,
@@ -730,6 +768,7 @@ impl Prop for MasterScript {
                     keep_alive_ms,
                     chunk,
                     steps,
+                    no_clock,
                 },
             )
             .boxed()
